@@ -60,6 +60,47 @@ pub fn c16_freelist_n3() {
     freelist_roundtrip(3)
 }
 
+/// Full page (MAX_PNS_PER_PAGE entries): the documented layout at the boundary positions - the first
+/// entry, one in the middle and the last two - with symbolic page numbers there (all other entries
+/// are the constant 0x01020304 so that the 1022-iteration loop stays cheap), and the item count. Encode
+/// side only. NOT REGISTERED: measured 2026-09-26 - CBMC does not finish within 25 min either (the
+/// 1022-iteration loop over slice iterators with bounds checks is already too much), so full pages stay
+/// outside C16's claim.
+#[kani::proof]
+pub fn c16_freelist_full_layout() {
+    let pool = zero_pool();
+    let prev = PageNumber(kani::any());
+    let mut pns = [PageNumber(0x01020304); MAX_PNS_PER_PAGE];
+    let probes = [0usize, MAX_PNS_PER_PAGE / 2, MAX_PNS_PER_PAGE - 2, MAX_PNS_PER_PAGE - 1];
+    let mut k = 0;
+    while k < probes.len() {
+        pns[probes[k]] = PageNumber(kani::any());
+        k += 1;
+    }
+    let n: usize = if kani::any() { MAX_PNS_PER_PAGE } else { MAX_PNS_PER_PAGE - 1 };
+    let page = encode_free_list_page(&pool, prev, &pns[..n]);
+    let raw: &[u8] = &page;
+    let le32 = |o: usize| (raw[o] as u32) | (raw[o + 1] as u32) << 8 | (raw[o + 2] as u32) << 16 | (raw[o + 3] as u32) << 24;
+    assert!(le32(0) == prev.0);
+    assert!((raw[4] as usize) | (raw[5] as usize) << 8 == n);
+    let mut k = 0;
+    while k < probes.len() {
+        let i = probes[k];
+        if i < n {
+            assert!(le32(6 + 4 * i) == pns[i].0);
+        }
+        k += 1;
+    }
+    // an arbitrary other position holds the constant
+    let j: usize = kani::any();
+    kani::assume(j < n);
+    assert!(le32(6 + 4 * j) == pns[j].0);
+    kani::cover!(n == MAX_PNS_PER_PAGE, "full page reached");
+    kani::cover!(n == MAX_PNS_PER_PAGE - 1, "one short of full reached");
+    core::mem::forget(page);
+    core::mem::forget(pool);
+}
+
 // A harness over a *full* page (MAX_PNS_PER_PAGE = 1022 symbolic entries, symbolic index check) was
 // tried: CBMC does not finish symbolic execution + reduction within 25 min. Pages with more than 3
 // entries are outside the claim (this is why seeded change C16-b, which only corrupts entries
